@@ -152,11 +152,13 @@ func init() {
 			v2ops := maxOps - 1 // each v2 sequence costs a helper process in its own mount namespace
 			if c20v2 {
 				// replayed inside the v2 mount namespace: the family choice is still consumed
-				x.Choose(6, "family")
+				x.Choose(7, "family")
 				c20sequence(x, v2ops)
 				return
 			}
-			switch x.Choose(6, "family") {
+			switch x.Choose(7, "family") {
+			case 6:
+				c20twoHandles(x)
 			case 5:
 				c20many(x)
 			case 4:
@@ -743,6 +745,59 @@ func c20many(x *mc.X) {
 			}
 		}
 	}
+}
+
+// family "two handles, one group": the limits of a group are written through two handles of it (its creator and one
+// obtained with OpenExisting) in every sequence of three writes over {handle} × {value set A, value set B}. After every
+// write that reports success the group's files hold exactly what that write asked for: a handle that remembers what it
+// wrote last cannot know what the other one wrote since.
+func c20twoHandles(x *mc.X) {
+	type vals struct{ quota, period, mem, pids uint64 }
+	sets := []vals{{50000, 100000, 64 << 20, 17}, {20000, 50000, 32 << 20, 9}}
+	var who, what [3]int
+	for i := range who {
+		who[i] = x.Choose(2, "handle")
+		what[i] = x.Choose(2, "values")
+	}
+	x.Note("scenario", fmt.Sprintf("writes through handles %v with value sets %v", who, what))
+	if x.Dry() {
+		return
+	}
+	c20cleanup()
+	defer c20cleanup()
+	rel := c20prefix() + "/two"
+	ct := &cgroup.Controllers{CPU: true, Memory: true, Pids: true}
+	a, err := cgroup.New(rel, ct)
+	if err != nil {
+		x.Failf("C20/harness", "two handles: New: %v", err)
+		return
+	}
+	defer a.Destroy()
+	b, err := cgroup.OpenExisting(rel, ct)
+	if err != nil || b == nil {
+		x.Failf("C20/harness", "two handles: OpenExisting: %v", err)
+		return
+	}
+	hs := []cgroup.Cgroup{a, b}
+	read := func(f string) string {
+		bs, _ := os.ReadFile("/sys/fs/cgroup/" + f)
+		return strings.TrimSpace(string(bs))
+	}
+	for i := range who {
+		v := sets[what[i]]
+		h := hs[who[i]]
+		e1 := h.SetCPUBandwidth(v.quota, v.period)
+		e2 := h.SetMemoryLimit(v.mem)
+		e3 := h.SetProcLimit(v.pids)
+		x.Count(1)
+		got := fmt.Sprint(read("cpu/"+rel+"/cpu.cfs_quota_us"), "/", read("cpu/"+rel+"/cpu.cfs_period_us"), " ", read("memory/"+rel+"/memory.limit_in_bytes"), " ", read("pids/"+rel+"/pids.max"))
+		want := fmt.Sprint(v.quota, "/", v.period, " ", v.mem, " ", v.pids)
+		x.Distinct(fmt.Sprint("two", who, what, i, got))
+		if e1 == nil && e2 == nil && e3 == nil && got != want {
+			x.Failf("C20/two-handles/limit-written-is-not-the-limit-in-force", "writes through handles %v with value sets %v: after write %d (all three setters returned nil) the group holds quota/period memory pids = %s, written %s", who, what, i+1, got, want)
+		}
+	}
+	x.Outcome("two-handles")
 }
 
 func c20schedules(x *mc.X) {
